@@ -41,7 +41,7 @@ ASSUMPTIONS = [
     "an exception escaping data_received on a noisy stream makes the run void (C14); on a clean stream it is a violation (promised messages lost)",
     "the absolute clean-stream oracle is used only with candidate lists in which exactly one reader matches the stream's type and configuration",
 ]
-MUST_FIRE = {"quick": ["valid_message_with_empty_payload", "selected_second_candidate", "invalid_withheld", "clean_absolute_checked", "empty_candidate_list", "selection_after_first_chunk"], "thorough": ["selected_second_candidate", "invalid_withheld", "clean_absolute_checked", "empty_candidate_list", "selection_after_first_chunk"]}
+MUST_FIRE = {"quick": ["valid_message_with_empty_payload", "selected_second_candidate", "invalid_withheld", "clean_absolute_checked", "empty_candidate_list", "selection_after_first_chunk", "reconnect_with_same_candidate_sequence", "candidates_as_tuple"], "thorough": ["selected_second_candidate", "invalid_withheld", "clean_absolute_checked", "empty_candidate_list", "selection_after_first_chunk"]}
 
 
 def _cand_lists(rng, cfg):
@@ -82,7 +82,19 @@ def gen(rng, tier, index):
         cands = _cand_lists(rng, cfg)
     wire = wire_of(stream)[0]
     hot = [i + 1 for i, b in enumerate(wire[:4000]) if b in (0x7E, 0x7D, 0x0A, 0x21)][:200]
-    yield {"cls": rng.choice(["payload", "message"]), "cands": cands, "stream": stream, "cuts": fragment.draw(rng, len(wire), hot, allow_empty=False)}
+    sc = {"cls": rng.choice(["payload", "message"]), "cands": cands, "stream": stream, "cuts": fragment.draw(rng, len(wire), hot, allow_empty=False)}
+    r = rng.random()
+    if r < 0.15:
+        sc["cands_as"] = "tuple"  # the parameter is a Sequence: a tuple is as good as a list
+    elif r < 0.3 and cands:
+        # reconnect: an earlier protocol instance was built from the very same candidate sequence object
+        # (that is what a connection factory does on every reconnect) and has already seen a stream
+        specs = [p1_gen.readout_spec(rng, i, "small") for i in range(rng.randint(1, 3))]
+        specs = [x for x in specs if p1_gen.well_formed(x)] or [p1_gen.readout_spec(rng, 0, "small")]
+        first = next(c02.gen(rng, tier, index))
+        earlier = {"kind": "clean_hdlc", "c02": {"cfg": first["cfg"], "items": first["items"][:7]}} if rng.random() < 0.5 else {"kind": "clean_p1", "c05": {"readouts": specs}}
+        sc["reuse"] = {"stream": earlier, "cuts": {"m": "fixed", "k": rng.choice([1, 7, 64, 100000])}}
+    yield sc
 
 
 def wire_of(stream):
@@ -145,17 +157,32 @@ def execute(sc):
             if stream["kind"] == "clean_hdlc" and spec[0] == "H" and [spec[1], spec[2]] == list(stream["c02"]["cfg"]):
                 matching += 1
         same_family = sum(1 for spec in sc["cands"] if (spec[0] == "P") == (stream["kind"] == "clean_p1"))
-        absolute = matching == 1 and same_family == 1
+        absolute = matching == 1 and same_family == 1 and not sc.get("reuse")
     else:
         absolute = False
 
     loop = new_loop()
     asyncio.events._set_running_loop(loop)
     got = []
+    reuse_failed = False
     try:
         q = asyncio.Queue()
         cls = mc.SmartMeterMessagePayloadProtocol if sc["cls"] == "payload" else mc.SmartMeterMessageProtocol
-        proto = cls(q, [make(s) for s in sc["cands"]])
+        readers = [make(s) for s in sc["cands"]]
+        handed = tuple(readers) if sc.get("cands_as") == "tuple" else readers  # the object given to the protocol(s)
+        if sc.get("reuse"):
+            wire_a = wire_of(sc["reuse"]["stream"])[0]
+            earlier = cls(asyncio.Queue(), handed)
+            earlier.connection_made(_Transport())
+            for chunk in fragment.chunks(wire_a, sc["reuse"]["cuts"]):
+                try:
+                    earlier.data_received(chunk)
+                except Exception:  # noqa: BLE001
+                    reuse_failed = True
+                    break
+        # what the caller passed, in the state it is in now: the reference for the shadow readers
+        shadows0 = copy.deepcopy(readers)
+        proto = cls(q, handed)
         proto.connection_made(_Transport())
     finally:
         asyncio.events._set_running_loop(None)
@@ -196,14 +223,13 @@ def execute(sc):
         idx, ex = errors[0]
         if clean:
             add("X", f"data_received-raised-on-clean-stream {type(ex).__name__} {reader_rig.exc_site(ex)}", f"call #{idx}: {ex!r}")
-        else:
-            void = True
+        # On a noisy stream the exception itself is C14's violation; here it only matters if it made the
+        # queue differ from what the selected reader's messages require (loss), which is judged below.
     nontrivial = False
-    if not errors:
+    if not errors or not clean:
         # shadow readers
         per = []
-        for spec in sc["cands"]:
-            rd = make(spec)
+        for rd in shadows0:
             first = None
             by_chunk = []
             bad = False
@@ -275,7 +301,8 @@ def execute(sc):
                         kind = "extra-item"
                     else:
                         kind = "item-differs"
-                    add("Q1", f"queue-not-explained-by-selected-reader {kind}", f"selection in chunk {k}; candidate {sc['cands'][ci]} would give {len(exp)} items, queue has {len(got_sig)}; stream {stream['kind']}")
+                    why = f" after data_received raised {type(errors[0][1]).__name__} in call #{errors[0][0]}" if errors else ""
+                    add("Q1", f"queue-not-explained-by-selected-reader {kind}{' after-exception' if errors else ''}", f"selection in chunk {k}; candidate {sc['cands'][ci]} would give {len(exp)} items, queue has {len(got_sig)}; stream {stream['kind']}{why}")
         if absolute and not void and sc["cls"] == "payload":
             probes["clean_absolute_checked"] = 1
             if list(got) != sent:
@@ -285,6 +312,13 @@ def execute(sc):
             pays = [m.payload for m in got if m.payload]
             if pays != sent:
                 add("Q2", f"clean-stream-payloads-differ {stream['kind']}", f"meter sent {len(sent)} non-empty payloads, messages on the queue carry {len(pays)}; candidates {sc['cands']}")
+    if sc.get("reuse"):
+        probes["reconnect_with_same_candidate_sequence"] = 1
+    if sc.get("cands_as") == "tuple":
+        probes["candidates_as_tuple"] = 1
+    if reuse_failed:
+        void = True
+        viol = []
     probes[f"stream_{stream['kind']}"] = 1
     probes[f"class_{sc['cls']}"] = 1
     return {
@@ -297,12 +331,12 @@ def execute(sc):
         "probes": probes,
         "states": states,
         "sim_s": sim_s,
-        "summary": {"class": sc["cls"], "candidates": sc["cands"], "stream_kind": stream["kind"], "stream_octets": len(wire), "stream_head_hex": wire[:40].hex(), "chunks": len(chunks), "queue_items": len(got), "virtual_seconds": round(sim_s, 3)},
+        "summary": {"class": sc["cls"], "candidates": sc["cands"], "candidates_as": sc.get("cands_as", "list"), "earlier_connection_on_same_sequence": bool(sc.get("reuse")), "stream_kind": stream["kind"], "stream_octets": len(wire), "stream_head_hex": wire[:40].hex(), "chunks": len(chunks), "queue_items": len(got), "virtual_seconds": round(sim_s, 3)},
     }
 
 
 def summarise(sc):
-    return {"class": sc["cls"], "candidates": sc["cands"], "stream_kind": sc["stream"]["kind"]}
+    return {"class": sc["cls"], "candidates": sc["cands"], "candidates_as": sc.get("cands_as", "list"), "earlier_connection_on_same_sequence": bool(sc.get("reuse")), "stream_kind": sc["stream"]["kind"]}
 
 
 def candidates(sc):
@@ -311,6 +345,10 @@ def candidates(sc):
             yield dict(copy.deepcopy(sc), cuts={"m": "list", "at": red} if red else {"m": "whole"})
     elif sc["cuts"]["m"] == "fixed":
         yield dict(copy.deepcopy(sc), cuts={"m": "whole"})
+    if sc.get("reuse"):
+        yield {k: v for k, v in copy.deepcopy(sc).items() if k != "reuse"}
+    if sc.get("cands_as"):
+        yield {k: v for k, v in copy.deepcopy(sc).items() if k != "cands_as"}
     for red in shrink.list_reductions(sc["cands"]):
         if red:
             yield dict(copy.deepcopy(sc), cands=red)
